@@ -10,6 +10,7 @@ import (
 	"github.com/inbucket/inbucket/v3/pkg/message"
 	"github.com/inbucket/inbucket/v3/pkg/policy"
 	"github.com/inbucket/inbucket/v3/pkg/storage"
+	"github.com/inbucket/inbucket/v3/pkg/storage/file"
 	"github.com/inbucket/inbucket/v3/pkg/storage/mem"
 	vrf "github.com/inbucket/inbucket/v3/pkg/zzvrf"
 )
@@ -17,9 +18,19 @@ import (
 // the recipient menu: two domains, a duplicate mailbox via case and +ext, a discard-listed domain
 var vrfRcptMenu = []string{"u1@d.org", "U1+tag@d.org", "u2@e.org", "u3@dis.org", "u1@e.org"}
 
-func vrfSetup(mode int, hooks *extension.Host) (*message.StoreManager, storage.Store, *policy.Addressing) {
+func vrfSetup(mode int, hooks *extension.Host, backend int) (*message.StoreManager, storage.Store, *policy.Addressing) {
+	ds := vrf.Bool("defaultStore")
+	if backend == 1 {
+		// mailbox directory names are hashes of the mailbox name: keep the set of mailboxes concrete
+		// per path (case split instead of a merged, symbolic recipient list)
+		n := 0
+		if ds {
+			n = 1
+		}
+		ds = vrf.Fork(n) == 1
+	}
 	root := &config.Root{SMTP: config.SMTP{
-		DefaultStore:   vrf.Bool("defaultStore"),
+		DefaultStore:   ds,
 		StoreDomains:   []string{"d.org"},
 		DiscardDomains: []string{"dis.org"},
 	}}
@@ -32,7 +43,15 @@ func vrfSetup(mode int, hooks *extension.Host) (*message.StoreManager, storage.S
 		root.MailboxNaming = config.DomainNaming
 	}
 	ap := &policy.Addressing{Config: root}
-	st, err := mem.New(config.Storage{}, hooks)
+	var st storage.Store
+	var err error
+	if backend == 1 {
+		// the file store, over the file-system model under the engine / a real temporary
+		// directory natively (left behind in the system temp dir; a few KiB per replayed case)
+		st, err = file.New(config.Storage{Params: map[string]string{"path": vrf.VfsTempDir()}}, hooks)
+	} else {
+		st, err = mem.New(config.Storage{}, hooks)
+	}
 	if err != nil {
 		panic(err)
 	}
@@ -40,7 +59,8 @@ func vrfSetup(mode int, hooks *extension.Host) (*message.StoreManager, storage.S
 }
 
 func vrfAll(rc io.ReadCloser) []byte {
-	b, _ := io.ReadAll(rc)
+	b, _ := vrf.ReadAll(rc)
+	rc.Close()
 	return b
 }
 
@@ -55,13 +75,13 @@ func vrfCount(st storage.Store, box string) int {
 // per accepted recipient that names it and whose domain is eligible; each carries the sender,
 // the To list and subject, and its source is Return-Path + Received + body byte for byte with
 // Size() == len(source) (C01, C02). One stored event per stored message (C16).
-func VerifC01Deliver(mode int, r int, n int) {
+func VerifC01Deliver(mode int, r int, n int, backend int) {
 	hooks := extension.NewHost()
 	var stored []event.MessageMetadata
 	hooks.Events.AfterMessageStored.AddListener("vrf", func(m event.MessageMetadata) {
 		stored = append(stored, m)
 	})
-	mgr, st, ap := vrfSetup(mode, hooks)
+	mgr, st, ap := vrfSetup(mode, hooks, backend)
 	vrf.HdrFrom, vrf.HdrTo, vrf.HdrSubject = "", "", ""
 	origin, err := ap.ParseOrigin("sender@o.org")
 	if err != nil {
@@ -166,7 +186,7 @@ func VerifC17Inbound(nboxes int) {
 		second++
 		return &event.InboundMessage{Mailboxes: []string{"from-second"}, From: in.From, To: in.To, Subject: "second", Size: in.Size}
 	})
-	mgr, st, ap := vrfSetup(1, hooks)
+	mgr, st, ap := vrfSetup(1, hooks, 0)
 	vrf.HdrFrom, vrf.HdrTo, vrf.HdrSubject = "", "", ""
 	origin, _ := ap.ParseOrigin("sender@o.org")
 	rc, err := ap.NewRecipient("u1@dis.org")
